@@ -15,7 +15,9 @@ CLAIMED = True
 LEVEL_TEXT = ("Proof with loop invariant and variant on the real sendall / sendall_stderr loops: ghost 'delivered' (the bytes "
               "send() reported as handed over) satisfies delivered ++ remaining == original at every iteration, the remaining "
               "length strictly decreases, and a normal return implies delivered == everything; the only other outcomes are "
-              "the documented exceptions. send() is used by contract (0 <= sent <= len, may be 0 when closed/EOF).")
+              "the documented exceptions. send() is used by contract (0 <= sent <= len, may be 0 when closed/EOF). A timeout bounds the whole wait for window: every Condition.wait in _wait_for_send_window is given no more "
+              "than what is left of self.timeout (ghost time budget consumed by each wait, obligation raised at the wait), so a "
+              "waiter woken again and again without the window opening still times out.")
 LEVEL_NOTE = ("The wait loop inside _wait_for_send_window carries a progress obligation (an iteration that starts with the "
               "channel closed or EOF sent must leave the loop), so a parked sender is released by close(). send()/send_stderr() are assumed here to satisfy their contract (their window arithmetic is verified under C19 "
               "through _send/_wait_for_send_window); timeouts are raised by the callee. Thread interleavings only enter through "
